@@ -442,7 +442,8 @@ def _replay_times(p, tau0, slew=7.5):
         msgs.append('natural slew times')
     if cons.data.shape != (off[nfr], 3) or not np.array_equal(cons.data[:, 0], np.concatenate([np.full(Ts[m], float(m)) for m in range(nfr)])):
         msgs.append('consolidated data')
-    if not np.allclose(cons.ts, np.concatenate([np.arange(Ts[m]) * 4.0 + t0s[m] for m in range(nfr)])):
+    want_ts = np.concatenate([np.arange(Ts[m]) * 4.0 + t0s[m] for m in range(nfr)])
+    if len(cons.ts) != len(want_ts) or not np.allclose(cons.ts, want_ts):
         msgs.append('consolidated ts')
     if cad0.obs_range is None or not np.isclose(cad0.obs_range, frames[-1].t_start + 4.0 * Ts[-1] - frames[0].t_start) or cad0.tchans != off[nfr]:
         msgs.append(f'obs_range {cad0.obs_range} / tchans {cad0.tchans}')
